@@ -492,3 +492,13 @@ func ErrorOffset(s Seq, multi bool) int {
 	}
 	return s.Len()
 }
+
+// ErrorAt is the offset an error must be reported at when the automaton is in
+// state q after all n bytes: the first offending byte, or n when the text is
+// only incomplete.
+func ErrorAt(q JState, n int) int {
+	if q.Ph == Err {
+		return q.ErrOff
+	}
+	return n
+}
